@@ -3,7 +3,7 @@ from .common import fams, generic_replay, PATTERNS
 
 
 def run(tier):
-    return scans.scan_check("C17", ("ADM.",), {"ADM"}, fams({'ADM'}, only=['Noh']), tier, require_patterns=PATTERNS)
+    return scans.scan_check("C17", ("ADM.",), {"ADM"}, fams({'ADM'}, only=['Noh'], extra=('EHEP','EPpiston','Mader')), tier, require_patterns=PATTERNS)
 
 
 def replay(path):
